@@ -117,7 +117,7 @@ pub fn check(cfg: &Config, s: &str) -> (Vec<Violation>, bool, u64) {
     let conv = cfg.parser.converter();
     let nontrivial = !o.ingredients.is_empty() || !o.cookware.is_empty() || !o.timers.is_empty() || !o.metadata.map.is_empty() || o.sections.len() > 1;
     let h = fx_hash_str(&j);
-    for (fi, f) in [None, Some(0.5), Some(3.0), Some(1.0 / 3.0)].into_iter().enumerate() {
+    for (fi, f) in [None, Some(0.5), Some(3.0), Some(1.0 / 3.0), Some(0.0), Some(1e-310)].into_iter().enumerate() {
         for sys in [None, Some(System::Metric), Some(System::Imperial)] {
             let Some(rec) = cfg.parser.parse(s).into_output() else { continue };
             let mut sc = match f {
@@ -194,5 +194,5 @@ pub fn run(tier: Tier) {
     c.states.store(st, std::sync::atomic::Ordering::Relaxed);
     c.transitions.store(st * 13, std::sync::atomic::Ordering::Relaxed);
     c.traces_validated.store(st * 13, std::sync::atomic::Ordering::Relaxed);
-    c.note("states = parsed recipes (one per input and configuration); transitions = the 13 serialize/deserialize round trips applied to each (1 scalable + 4 scalings x 3 conversions); all executed on the real serde implementations");
+    c.note("states = parsed recipes (one per input and configuration); transitions = the 13 serialize/deserialize round trips applied to each (1 scalable + 6 scalings, incl. the factors 0 and 1e-310, x 3 conversions); all executed on the real serde implementations");
 }
